@@ -18,7 +18,7 @@ import contracts.c02 as c02
 ASSUMPTIONS = c02.ASSUMPTIONS + [
     "symmetric (Loewdin) orthonormalisation as a power series: (1+x)^(-1/2) (1+x) (1+x)^(-1/2) = 1 coefficient-wise, Gram-Schmidt against lower classes (lemmas/loewdin.md) - the orthonormality statement of C04 follows from the proved formulas by this lemma (paper proof), not by the solver",
     "Taylor expansions: sympy.diff / subs / nsimplify on c (1+x)^a with an EXACT exponent a (sympy Rational, int) are mathematical; machine arithmetic treated as mathematical only for the integral float exponent -1.0 of expand_norm_factor (coefficients (-1)^k compared natively up to k = 40); any other float exponent is outside the model (UNDECIDED) - the float -0.5 formerly used by expand_S_taylor lost the exact coefficients beyond 8th order (defect 31b9bd8, found by the thorough tier of expand_S_taylor.binomial_series)",
-    "gen_term_orders returns a duplicate free enumeration of the compositions (assumed contract; bounded check gen_term_orders.compositions)",
+    "gen_term_orders returns a duplicate free enumeration of the compositions: body verified for term_length 0..4 (contracts/c02.py, listed under this property); for a symbolic term_length (exponents of the Taylor expansions) it stays an assumed contract with the bounded check gen_term_orders.compositions",
     "adcgen.func:evaluate_deltas preserves the value (C09)",
     "sympy diff on c(1+x)^a gives c a (1+x)^(a-1); subs(x, 0) gives c; nsimplify(rational=True) keeps the value",
 ]
